@@ -12,6 +12,8 @@ import (
 	"crypto/x509"
 	"fmt"
 	"github.com/saucelabs/forwarder"
+	"io"
+	"net"
 	"strings"
 	"testing"
 	"time"
@@ -446,7 +448,7 @@ func dialFault(x *explore.X) {
 
 func tlsFault(x *explore.X) {
 	kind := []string{"GET-inside-MITM", "MITM-GET-via-upstream"}[x.ChooseFree("kind", 2)]
-	fault := x.ChooseFree("fault", 6)
+	fault := x.ChooseFree("fault", 7)
 	e := setup(x, kind, nil, nil)
 	if e == nil {
 		return
@@ -471,7 +473,7 @@ func tlsFault(x *explore.X) {
 		hop.Send([]byte("HTTP/1.1 200 OK\r\n\r\n"))
 	}
 	other := world.NewPKI("some other CA")
-	names := []string{"garbage (plain HTTP reply)", "close during handshake", "certificate for another name", "expired certificate", "certificate of an untrusted CA", "reset during handshake"}
+	names := []string{"garbage (plain HTTP reply)", "close during handshake", "certificate for another name", "expired certificate", "certificate of an untrusted CA", "reset during handshake", "genuine ServerHello record, then a plain HTTP reply"}
 	var tp *world.TLSPeer
 	switch fault {
 	case 0:
@@ -486,6 +488,20 @@ func tlsFault(x *explore.X) {
 		tp = world.TLSServer(hop, &tls.Config{Certificates: []tls.Certificate{other.Leaf([]string{originHost}, -time.Hour, time.Hour)}})
 	case 5:
 		hop.Abort()
+	case 6:
+		// the first record is a real ServerHello (made by crypto/tls from the proxy's own ClientHello), what follows
+		// is not TLS: the error the TLS stack reports for a LATER record differs from the one for the first record
+		hello := hop.Recv()
+		if i := bytes.Index(hello, []byte("\r\n\r\n")); e.viaUp && i >= 0 {
+			hello = hello[i+4:] // (behind an upstream proxy the ClientHello follows the CONNECT head)
+		}
+		sh := serverHelloFor(hello, &tls.Config{Certificates: []tls.Certificate{e.pki.Leaf([]string{originHost}, -time.Hour, time.Hour)}})
+		if len(sh) == 0 {
+			x.Failf("harness/server-hello", "could not produce a ServerHello for the proxy's ClientHello (%d bytes)", len(hop.Recv()))
+			e.finish(x, hop)
+			return
+		}
+		hop.Send(append(sh, "HTTP/1.1 400 Bad Request\r\nContent-Length: 0\r\n\r\n"...))
 	}
 	world.Settle(30 * time.Second)
 	what := fmt.Sprintf("%s, TLS fault: %s", kind, names[fault])
@@ -502,6 +518,33 @@ func tlsFault(x *explore.X) {
 	} else {
 		e.finish(x, hop)
 	}
+}
+
+// serverHelloFor returns the first TLS record (the ServerHello) a real crypto/tls server writes in answer to clientHello.
+func serverHelloFor(clientHello []byte, cfg *tls.Config) []byte {
+	if len(clientHello) < 6 || clientHello[0] != 0x16 {
+		return nil
+	}
+	c1, c2 := net.Pipe()
+	defer c1.Close()
+	defer c2.Close()
+	srv := tls.Server(c2, cfg)
+	go srv.Handshake() //nolint:errcheck // ends when the pipe is closed
+	go c1.Write(clientHello)
+	buf := make([]byte, 1<<16)
+	n, err := io.ReadAtLeast(c1, buf, 5)
+	if err != nil || buf[0] != 0x16 {
+		return nil
+	}
+	l := 5 + int(buf[3])<<8 + int(buf[4])
+	for n < l {
+		m, err := c1.Read(buf[n:])
+		if err != nil {
+			return nil
+		}
+		n += m
+	}
+	return append([]byte(nil), buf[:l]...)
 }
 
 // ---- D: replies of the upstream proxy to CONNECT ---------------------------------------------------
